@@ -998,7 +998,11 @@ class IntWP:
         if any(isinstance(v, Ref) for v in vals):
             raise Unsupported('contract replacement of a function with reference parameters')
         if pre.startswith('UF'):
-            # determinism abstraction: uninterpreted function of the (flattened) arguments
+            # determinism abstraction: uninterpreted function of the (flattened) arguments; 'UFR' additionally states that the result is
+            # a value of the return type (opt-in: the extra facts perturb the solver on units that do not need them)
+            ranged = pre.startswith('UFR')
+            if ranged:
+                pre = 'UF' + pre[3:]
             flat = []
             for v in vals:
                 flat += list(v.values()) if isinstance(v, dict) else [v]
@@ -1014,6 +1018,11 @@ class IntWP:
                 if decl not in self.decls:
                     self.decls.append(decl)
                 out[fld] = self.define('uf', '(%s %s)' % (name, ' '.join(flat)))
+                # the result is a value of the function's return type (same range fact as for a contract-replaced call)
+                fty = dict((f[1], f[0]) for f in self.ex.structs[rt.base])[fld] if rt.is_struct() else rt.base
+                if ranged and fty not in X.FLOATS:
+                    lo, hi = rng(fty)
+                    self.assumes.append('(and (<= %s %s) (<= %s %s))' % (lit(lo), out[fld], out[fld], lit(hi)))
             res = out if rt.is_struct() else out[None]
             if post:
                 # ... that additionally satisfies the function's (proved) contract on its domain
